@@ -134,6 +134,18 @@ chk("C14", LOADTXT + " Particle files: the lengths of the five skipped header re
     TRUST + " Particle counts per CPU concrete (0-2); CSV tokenisation is numpy's C code (stubbed by contract).",
     "symbolic execution of PartReader/SinkReader/Loader on symbolic files; SMT (LIA locator, LRA values)", "DESIGN.md section 5 C14")
 
+chk("C12", LOADTXT + " Here with level predicates (l<=k, l<k, l==k, l>=k, a<l<b for every k) alone, combined with a symbolic density threshold, per "
+    "file with symbolic ghost counts: meta['lmax'] must be the highest accepted level L, no record of a level above L may be read, the rows must "
+    "be the cells of the tree truncated at L that satisfy the predicate (cells at L with their stored coarse values), and when 1..L are "
+    "accepted the cell volumes must add up to the box volume.",
+    TRUST + " Trees with one branch refined down to levelmax; predicate forms enumerated.",
+    "symbolic execution of the loader with level selections on symbolic files; SMT (LIA locator, LRA values/volumes)", "DESIGN.md section 5 C12")
+chk("C15", LOADTXT + " Here sequences of load() calls on ONE dataset (all ordered pairs, thorough: triples, over an 8-call alphabet: full, part-only, "
+    "variable subset, value / position / level predicate, cpu_list, sortby) are compared group by group with fresh datasets executing only the "
+    "relevant call; groups from earlier calls must be the same objects, unchanged; metadata counts must match.",
+    TRUST + " Densities assumed increasing and stored centres true so that predicates do not multiply the paths.",
+    "symbolic execution of load() call sequences vs fresh datasets on symbolic files; SMT equality of the resulting terms", "DESIGN.md section 5 C15")
+
 for pid in ["C01", "C03", "C04", "C05", "C06", "C07", "C08", "C09", "C10", "C11", "C12", "C13", "C14", "C15", "C16",
             "C17", "C18", "C19", "C20"]:
     NA.setdefault(pid, "check under construction in this round (solver-based harness designed in DESIGN.md section 5, not yet registered)")
